@@ -12,8 +12,9 @@ META = {
     "note": "Trusted: TLC, Go toolchain, reflect.StructOf, math/big and time for concretisation. Outside the documented domain and not generated: tagged RawValue fields (Marshal ignores their parameters), implicitly tagged GeneralizedTime / non-printable strings without a string-type parameter, non-optional Flag, omitempty without optional, optional *big.Int, RawContent, BMPString / T61String / GeneralString (decode only). Time values carry whole seconds only.",
 }
 
-QUICK = dict(MENUS='{"small","large"}', S_FIELDS=2, L_FIELDS=1)
-THOROUGH = [dict(MENUS='{"small"}', S_FIELDS=3, L_FIELDS=0), dict(MENUS='{"large"}', S_FIELDS=0, L_FIELDS=2)]
+QUICK = dict(MENUS='{"small","large","times"}', S_FIELDS=2, L_FIELDS=1, T_FIELDS=1)
+THOROUGH = [dict(MENUS='{"small","times"}', S_FIELDS=3, L_FIELDS=0, T_FIELDS=1),
+            dict(MENUS='{"large"}', S_FIELDS=0, L_FIELDS=2, T_FIELDS=0)]
 
 
 def run(ctx):
